@@ -35,6 +35,42 @@ def callback_nodes(g, recv, names):
             any(isinstance(c.func, ast.Attribute) and c.func.attr in names and dotted(c.func.value) == recv for c in n.calls())]
 
 
+def live_spy_loops(run, model, cg, facs, rule='LIVE.spy-once'):
+    for nm in ('print_spy_after_at_start_if_live', 'print_spy_after_rtc_if_live'):
+        fac = facs.get(nm)
+        if fac is None:
+            raise AnalysisError('%s not found' % nm)
+        inner = cg.factories[fac]
+        g = cfg_of(inner)
+        run.touch(inner, g)
+        recv = inner.params[0]
+        loops = [h for h in g.loop_heads() if h.kind == 'for']
+        if len(loops) != 1:
+            raise AnalysisError('%s: expected one loop over the step log' % nm)
+        h = loops[0]
+        it = h.stmt.iter
+        snap = (isinstance(it, ast.Call) and isinstance(it.func, ast.Attribute) and it.func.attr == 'copy' and (dotted(it.func.value) or '').endswith('.rtc.spy')) or \
+               (isinstance(it, ast.Call) and norm(it.func) in ('list', 'tuple') and it.args and (dotted(it.args[0]) or '').endswith('.rtc.spy'))
+        run.inst(rule, inner, 'iterates a snapshot of the step log', bool(snap),
+                 '' if snap else 'the live spy loop iterates %s: a callback that posts/scribbles mutates the deque during iteration' % norm(it), node=h.stmt, obligation=True)
+        tv = h.stmt.target.id if isinstance(h.stmt.target, ast.Name) else None
+        body = g.loop_body(h)
+        cbn = [n for n in callback_nodes(g, recv, ('live_spy_callback',)) if n in body]
+        start = [m for m, l in g.succ[h] if l == 'iter']
+        cnt = queues.count(g, cbn, start=start[0], end=h) if start else None
+        run.inst(rule, inner, 'one callback per line', cnt == (1, 1), 'callbacks per line: %s' % (cnt,), node=h.stmt, obligation=True)
+        for n in cbn:
+            for c in n.calls():
+                if isinstance(c.func, ast.Attribute) and c.func.attr == 'live_spy_callback':
+                    ok = len(c.args) == 1 and isinstance(c.args[0], ast.Name) and c.args[0].id == tv
+                    run.inst(rule, inner, 'the callback receives the line itself', ok, 'callback argument is %s' % norm(c), node=c, obligation=True)
+        fcs = [n for n in g.nodes if wrap.fn_calls_in(n, fac.params[0])]
+        ok = all(any(g.dominates(fc, n) for fc in fcs) for n in cbn)
+        run.inst(rule, inner, 'lines are emitted after the wrapped step', ok, 'live spy emitted before the step', obligation=True)
+        stray = [n for n in callback_nodes(g, recv, ('live_spy_callback',)) if n not in body]
+        run.inst(rule, inner, 'no callback outside the loop', not stray, 'a line is emitted outside the per-line loop', obligation=True)
+
+
 def check(run, model, tier):
     run.explanation = ('Field-based taint analysis from the wall clock to branch conditions that control live callbacks, identity-newness and '
                        'update-on-every-path rules for the live trace wrapper, snapshot/once-per-element loop rules for the live spy wrappers and a '
@@ -138,40 +174,7 @@ def check(run, model, tier):
         run.inst('LIVE.newness', inner, 'emission after the wrapped step', ok, 'emitted before the step', node=n.ast, obligation=True)
         cnt = queues.count(g, cbn)
         run.inst('LIVE.newness', inner, 'at most one emission per step', cnt is not None and cnt[1] <= 1, 'emissions per step: %s' % (cnt,), obligation=True)
-    # ---- live spy loops
-    for nm in ('print_spy_after_at_start_if_live', 'print_spy_after_rtc_if_live'):
-        fac = facs.get(nm)
-        if fac is None:
-            raise AnalysisError('%s not found' % nm)
-        inner = cg.factories[fac]
-        g = cfg_of(inner)
-        run.touch(inner, g)
-        recv = inner.params[0]
-        loops = [h for h in g.loop_heads() if h.kind == 'for']
-        if len(loops) != 1:
-            raise AnalysisError('%s: expected one loop over the step log' % nm)
-        h = loops[0]
-        it = h.stmt.iter
-        snap = (isinstance(it, ast.Call) and isinstance(it.func, ast.Attribute) and it.func.attr == 'copy' and (dotted(it.func.value) or '').endswith('.rtc.spy')) or \
-               (isinstance(it, ast.Call) and norm(it.func) in ('list', 'tuple') and it.args and (dotted(it.args[0]) or '').endswith('.rtc.spy'))
-        run.inst('LIVE.spy-once', inner, 'iterates a snapshot of the step log', bool(snap),
-                 '' if snap else 'the live spy loop iterates %s: a callback that posts/scribbles mutates the deque during iteration' % norm(it), node=h.stmt, obligation=True)
-        tv = h.stmt.target.id if isinstance(h.stmt.target, ast.Name) else None
-        body = g.loop_body(h)
-        cbn = [n for n in callback_nodes(g, recv, ('live_spy_callback',)) if n in body]
-        start = [m for m, l in g.succ[h] if l == 'iter']
-        cnt = queues.count(g, cbn, start=start[0], end=h) if start else None
-        run.inst('LIVE.spy-once', inner, 'one callback per line', cnt == (1, 1), 'callbacks per line: %s' % (cnt,), node=h.stmt, obligation=True)
-        for n in cbn:
-            for c in n.calls():
-                if isinstance(c.func, ast.Attribute) and c.func.attr == 'live_spy_callback':
-                    ok = len(c.args) == 1 and isinstance(c.args[0], ast.Name) and c.args[0].id == tv
-                    run.inst('LIVE.spy-once', inner, 'the callback receives the line itself', ok, 'callback argument is %s' % norm(c), node=c, obligation=True)
-        fcs = [n for n in g.nodes if wrap.fn_calls_in(n, fac.params[0])]
-        ok = all(any(g.dominates(fc, n) for fc in fcs) for n in cbn)
-        run.inst('LIVE.spy-once', inner, 'lines are emitted after the wrapped step', ok, 'live spy emitted before the step', obligation=True)
-        stray = [n for n in callback_nodes(g, recv, ('live_spy_callback',)) if n not in body]
-        run.inst('LIVE.spy-once', inner, 'no callback outside the loop', not stray, 'a line is emitted outside the per-line loop', obligation=True)
+    live_spy_loops(run, model, cg, facs)
     # ---- writer
     ao = model.cls('ActiveObject')
     wr = model.cls('InstrumenationWriterClass')
